@@ -158,6 +158,8 @@ def place_end(s):
 
 
 def strip_generics(p):
+    m = re.match(r'^(.*?)::<impl [^<>]*(?:<[^<>]*>[^<>]*)*>$', p)
+    if m and '::<impl ' not in m.group(1): p = m.group(1)
     out = []; depth = 0; i = 0; n = len(p)
     while i < n:
         if depth == 0 and p.startswith('::<', i) and not p.startswith('::<impl ', i):
@@ -424,6 +426,8 @@ class Engine:
                 elif v is UNINIT:
                     if not for_write: raise Panic('uninit', 'field of uninitialized value')
                     v = [UNINIT] * (p[1] + 1); cont[key] = v; cont, key = v, p[1]
+                elif v.__class__ is FnV and v.env is not None:
+                    cont, key = v.env, p[1]          # captured variables of a closure
                 elif v.__class__ is Ref and v.meta is not None:
                     # fat pointer fields (data ptr, len): synthesize
                     cont, key = [Ref(v.root, v.path, None, v.alloc), IntV(self.PW, v.meta)], p[1]
@@ -649,8 +653,12 @@ class Engine:
             ops = [self.compile_operand(fd.split(': ', 1)[1]) for fd in split_top(m.group(2))]
             return lambda fr: [o(fr) for o in ops]
         if rv.startswith('{closure@') or rv.startswith('{coroutine@'):
-            # closure aggregate: "{closure@src/lib.rs:1:2: 3:4}" optionally with captured operands
-            name = rv
+            # closure aggregate: "{closure@src/lib.rs:1:2: 3:4}" optionally with captured operands "{ f: move _9 }"
+            cm = re.match(r'^(\{closure@[^}]*\})(?: \{ (.*) \})?$', rv)
+            if cm and cm.group(2):
+                name = cm.group(1); ops = [self.compile_operand(fd.split(': ', 1)[1]) for fd in split_top(cm.group(2))]
+                return lambda fr: FnV(name, [o(fr) for o in ops])
+            name = cm.group(1) if cm else rv
             return lambda fr: FnV(name)
         mm = None
         if rv.endswith(')'):
